@@ -274,6 +274,28 @@ PROPS = {
 }
 
 
+
+# Extensions made after the seeded-change rounds (DESIGN.md 10.6): appended to the rule texts above.
+RULE_ADDENDA = {
+    "C01": "Generator scripts: a drop directly after a snapshot, re-creation of a dropped name with another precision or dimension and immediate use; unlink prefers edges that exist, with the inverse they were created with.",
+    "C02": "After recovery the repaired directory keeps being used: something recovered is deleted, then RewriteAOF or SaveSnapshot runs, then restart (nothing a crash left behind may leak into the new files). Generator scripts as C01, plus delete-then-vacuum with no flush in between and an image right after every forced maintenance.",
+    "C03": "Arguments larger than the parser's 4096-byte buffer in the codec half; after the first recovery the same directory is recovered a second time and must give the same keys and vectors (the repair of the file must not cost intact commands).",
+    "C05": "Rejected deletes/metadata updates also target graph-only entities (ids with edges but no vector).",
+    "C06": "A third of the queries are text or hybrid (explicit text query, alpha 0..1, optionally no vector) combined with filter and graph scope; for those the universal negatives are judged, not the score.",
+    "C08": "Values that change type but not printed form (1 <-> \"1\"), vectors without any metadata.",
+    "C09": "Documents that analyse to zero tokens; hybrid queries with k from 1 to 50 (a document outside the vector leg's k nearest may be fused with vector share 0; a tie at that boundary may go either way); score tolerance by precision class.",
+    "C11": "Unlink prefers existing edges with their inverse; half of the runs restart / snapshot / compact before the query phase.",
+    "C12": "Half of the runs give the index a graph retention and run a graph vacuum before the deletes (and among the admin operations).",
+    "C13": "Text-indexed metadata and hybrid searches; reinforcement of nodes other tasks delete, with the oracle that an id whose delete was acknowledged is gone for the metadata indexes (VFilter) too; a third of the runs have an automatic snapshot due at every housekeeping tick.",
+    "C14": "Bursts of 1100-2600 writes (more than the log writer's 1000-entry buffer) followed at once by Flush or Sync.",
+    "C15": "Memories are also inserted through VAddBatch and VImport (supplied _created_at must be stored unchanged); _access_count seeded as float64, int or int64; a quarter of the runs leave the global half-life at 0 (layers only / documented 7-day default) with creation times spread over weeks.",
+    "C16": "Path-addressed routes (/config, /maintenance, /auto-links) carry a decoy index_name in the body; graph routes address nodes as <other index>::v1; link targets whose id names the index make cross-namespace graph reads visible.",
+    "C17": "A quarter of the runs use a memory-enabled (time-decaying) forbidden-prompt index whose entries are 30 days old: the firewall compares distances, not decayed scores.",
+    "C19": "Mutation 'unknown id' (one id of the request names nothing while the others exist); /config route with duration fields (wrong type = bool, array or object; string and number are both documented); index names with interior '..'.",
+}
+for _k, _v in RULE_ADDENDA.items():
+    PROPS[_k]["rule"] = PROPS[_k]["rule"] + " EXTENSIONS: " + _v
+
 PENDING = "check not built yet in this session (deterministic-simulation harness under construction); not claimed until its check exists and is quiet on the unchanged tree"
 NOT_APPLICABLE = {("C%02d" % i): PENDING for i in range(2, 20)}
 NOT_APPLICABLE["C20"] = ("pure functions of their input (text analysis, chunking, context assembly have no clock, goroutine, lock, randomness or I/O): "
